@@ -53,6 +53,18 @@ ShPools == {"sapling", "orchard", "ironwood"}
 (*   tinV, tinS, toutV, toutS         transparent inputs/outputs: values, sizes (-1 unknown)  *)
 (*   sin, sout, oin, oout, iin, iout  shielded inputs/outputs: values                         *)
 (*   tpolicy                          "shield" | "allowed" (transparent change policy)        *)
+(*   tfeat                            the strategy is built with `transparent-inputs`: only   *)
+(*                                    then may tpolicy be "allowed", and exactly then is the   *)
+(*                                    ephemeral output of the step listed among the change     *)
+(*                                    values (`ChangeValue::ephemeral_transparent`)            *)
+(*                                                                                            *)
+(* ZIP 320 (`EphemeralBalance`): a step may have ONE ephemeral transparent item. "in": the     *)
+(* output of the previous step is spent -- its value is an input of this step and its size    *)
+(* (a standard P2PKH input, 150 bytes) counts in the transparent-input term of the fee. "out": *)
+(* the step creates a transparent output of value ephV for the next step -- a standard P2PKH   *)
+(* output (34 bytes) of the fee's transparent-output term and part of "outputs" in the          *)
+(* conservation law, but NOT a payment of the request and not change: it never counts towards  *)
+(* the change total, the dust law or the split law.                                            *)
 
 Thr(q) == IF q.hasThr THEN q.thr ELSE NOf(q.rule.m)
 Nu63(q) == q.nu63H >= 0 /\ q.targetH >= q.nu63H
@@ -75,7 +87,11 @@ Shape(q) ==
      oIn |-> Len(q.oin), oOut |-> Len(q.oout),
      iIn |-> Len(q.iin), iOut |-> Len(q.iout),
      sapType |-> q.sapType, ov3 |-> q.ov3,
-     crossable |-> Len(q.iout) = 1 /\ NCanon(q.iout[1]) /\ q.anchorH % q.interval = 0]
+     \* a step that creates an ephemeral (transparent) output is never shaped like a migration transfer: the output
+     \* is listed with the change (`Step::is_canonical_crossing`: "no change in any other pool"), so the Ironwood
+     \* bundle of such a step is padded whether or not this build lists the output (finding
+     \* C07-crossing-fee-with-ephemeral-output: the fee once assumed the unpadded bundle there)
+     crossable |-> Len(q.iout) = 1 /\ NCanon(q.iout[1]) /\ q.anchorH % q.interval = 0 /\ q.ephK # "out"]
 
 NoShieldedIO(q) == Len(q.sin) + Len(q.sout) + Len(q.oin) + Len(q.oout) + Len(q.iin) + Len(q.iout) = 0
 NoShieldedValue(q) == NAdd(NAdd(NAdd(NSum(q.sin), NSum(q.sout)), NAdd(NSum(q.oin), NSum(q.oout))),
@@ -146,10 +162,12 @@ Answer(q, d, o) ==
          orchard |-> NSum(Values(SelectSeq(real, LAMBDA c : c.pool = "orchard"))),
          final |-> NOf(ShapeFee(q.rule, d.sh, man))]
 
-\* an ephemeral output, when listed among the change values, is exactly the requested one
+\* with `transparent-inputs` the requested ephemeral output is listed among the change values exactly once, with
+\* exactly the requested value (the transaction is built from that list: an unlisted output would not be created, and
+\* the inputs would exceed outputs + change + fee by its value); without the feature it is never listed
 EphOK(q, a) ==
-    /\ Len(a.ephs) <= 1
-    /\ Len(a.ephs) = 1 => /\ q.ephK = "out" /\ a.ephs[1].v = q.ephV
+    /\ Len(a.ephs) = (IF q.tfeat /\ q.ephK = "out" THEN 1 ELSE 0)
+    /\ Len(a.ephs) = 1 => /\ a.ephs[1].v = q.ephV
                           /\ a.ephs[1].pool = "transparent" /\ ~a.ephs[1].memo
 
 \* Sigma in = Sigma out + Sigma change + fee, exactly (the ephemeral output is part of Sigma out and
@@ -232,6 +250,7 @@ BalanceA(q, d, a, o) ==
     /\ DustOK(q, d, a)
     /\ TurnstileA(q, d, a)
     /\ DummyOK(d, a, o)
+
 BalanceD(q, d, o) == BalanceA(q, d, Answer(q, d, o), o)
 
 \* --- refusals ---
